@@ -4,10 +4,18 @@ EXTENDS Convert
 
 CONSTANT MaxLen
 
-F(k, en, e, a, c) == [kind |-> k, en |-> en, ecu |-> e, apid |-> a, ctid |-> c]
+NoRx3 == [ecu |-> NoRx, apid |-> NoRx, ctid |-> NoRx]
+F(k, en, e, a, c) == [kind |-> k, en |-> en, ecu |-> e, apid |-> a, ctid |-> c, rx |-> NoRx3]
+Chars == [x \in {"E1", "E2", "A1", "A2", "C1", ""} |->
+             CASE x = "E1" -> <<"E", "1">> [] x = "E2" -> <<"E", "2">> [] x = "A1" -> <<"A", "1">> [] x = "A2" -> <<"A", "2">>
+               [] x = "C1" -> <<"C", "1">> [] OTHER -> <<>>]
+\* regex criteria: apid contains "2" (prefix form), ecu starts with "E" followed by 1 (class form)
+RxF == [F("pos", TRUE, "", "", "") EXCEPT !.rx = [NoRx3 EXCEPT !.apid = [t |-> "prefix", w |-> <<"2">>, v |-> <<>>, s |-> "2.*"]]]
+RxG == [F("neg", TRUE, "", "", "") EXCEPT !.rx = [NoRx3 EXCEPT !.ecu = [t |-> "class", w |-> <<"E">>, v |-> <<"1">>, s |-> "E[1]"]]]
 MsgU == [ecu : {"E1", "E2"}, apid : {"A1", "A2"}, ctid : {"C1"}, ext : {TRUE}, lc : {1, 2}]
           \cup [ecu : {"E1", "E2"}, apid : {""}, ctid : {""}, ext : {FALSE}, lc : {1, 2}]
-Mk(m, i) == [index |-> i - 1, key |-> i, lc |-> m.lc, ecu |-> m.ecu, apid |-> m.apid, ctid |-> m.ctid, ext |-> m.ext, hash |-> i]
+Mk(m, i) == [index |-> i - 1, key |-> i, lc |-> m.lc, ecu |-> m.ecu, apid |-> m.apid, ctid |-> m.ctid, ext |-> m.ext, hash |-> i,
+            ecuc |-> Chars[m.ecu], apidc |-> Chars[m.apid], ctidc |-> Chars[m.ctid]]
 StreamsVal == UNION {{[i \in 1..n |-> Mk(f[i], i)] : f \in [1..n -> MsgU]} : n \in 0..MaxLen}
 
 FilterSets == { <<>>,
@@ -15,7 +23,8 @@ FilterSets == { <<>>,
                 <<F("neg", TRUE, "", "A1", "")>>,
                 <<F("pos", TRUE, "", "A1", "C1"), F("neg", TRUE, "E2", "", "")>>,
                 <<F("pos", FALSE, "E1", "", ""), F("marker", TRUE, "E2", "", "")>>,
-                <<F("pos", TRUE, "E1", "", ""), F("pos", TRUE, "", "A2", "")>> }
+                <<F("pos", TRUE, "E1", "", ""), F("pos", TRUE, "", "A2", "")>>,
+                <<RxF>>, <<RxF, RxG>> }
 OptsVal == [b : {0, 1}, e : {0, 1, MaxIdx}, lcs : {{}, {1}, {1, 2}, {9}}, ff : FilterSets,
             eac : {<<>>, <<F("pos", TRUE, "", "A2", "")>>}, sort : BOOLEAN, style : {"a", "none"}, ofile : BOOLEAN]
 OptsQuick == [b : {0, 1}, e : {0, MaxIdx}, lcs : {{}, {1}, {9}}, ff : FilterSets,
